@@ -121,6 +121,11 @@ func (s *segment) setupIndex() (err error) {
 		return err
 	}
 	lastEntry, err := s.Index.InitializePosition()
+	if err == nil && !s.indexMatchesLog(lastEntry) {
+		// The index does not belong to this log, e.g. because the process died
+		// between the two renames of a segment replacement.
+		err = errIndexCorrupt
+	}
 	if err != nil {
 		if err == errIndexCorrupt {
 			// Index is corrupt, attempt to rebuild from log file
@@ -148,6 +153,43 @@ func (s *segment) setupIndex() (err error) {
 		s.firstOffset = firstEntry.Offset
 		s.firstWriteTime = firstEntry.Timestamp
 	}
+	return s.trimLog(lastEntry)
+}
+
+// indexMatchesLog checks that the last index entry describes the message
+// found at its position in the log file.
+func (s *segment) indexMatchesLog(lastEntry *entry) bool {
+	if lastEntry == nil {
+		return true
+	}
+	if lastEntry.Position+int64(lastEntry.Size) > s.position {
+		return false
+	}
+	header := make(messageSet, msgSetHeaderLen)
+	if _, err := s.log.ReadAt(header, lastEntry.Position); err != nil {
+		return false
+	}
+	return header.Offset() == lastEntry.Offset && header.Size()+msgSetHeaderLen == lastEntry.Size
+}
+
+// trimLog cuts the log file back to the end of the last indexed message.
+// Messages are written to the log before they are indexed, so after an unclean
+// shutdown the log can end with (part of) a message set that never made it into
+// the index. That append did not complete. The next offset is derived from the
+// index, so without this the next append would reuse the offset of those
+// messages while readers, which walk the log sequentially, would still see them.
+func (s *segment) trimLog(lastEntry *entry) error {
+	end := int64(0)
+	if lastEntry != nil {
+		end = lastEntry.Position + int64(lastEntry.Size)
+	}
+	if s.position <= end {
+		return nil
+	}
+	if err := s.log.Truncate(end); err != nil {
+		return errors.Wrap(err, "failed to truncate log to last indexed message")
+	}
+	s.position = end
 	return nil
 }
 
@@ -181,12 +223,9 @@ func (s *segment) rebuildIndex() error {
 	s.Index.position = 0
 	s.Index.mu.Unlock()
 
-	// If log file is empty, we're done
-	if s.position == 0 {
-		return nil
-	}
-
-	// Scan the log file and rebuild index entries
+	// Scan the log file and rebuild index entries. If the log file is empty,
+	// there is nothing to scan, but the index position still has to be set for
+	// InitializePosition below.
 	var pos int64
 	headerBuf := make([]byte, msgSetHeaderLen)
 
